@@ -30,6 +30,24 @@ def vnorm(a): return math.sqrt(vdot(a, a))
 def vcross(a, b): return [a[1] * b[2] - b[1] * a[2], -a[0] * b[2] + b[0] * a[2], a[0] * b[1] - b[0] * a[1]]
 
 
+AMBIG = [False]
+
+
+def pd(case, a, b):
+    """colvarproxy_system::position_distance(a, b): minimum image of b - a in the orthorhombic cell of the case"""
+    d = vsub(b, a)
+    L = case.get("cell")
+    if not L:
+        return d
+    out = []
+    for x, l in zip(d, L):
+        y = x / l + 0.5
+        if abs(y - round(y)) < 1e-6:
+            AMBIG[0] = True          # within rounding of half a cell: the image is ambiguous
+        out.append(x - math.floor(y) * l)
+    return out
+
+
 def com(case, pos, g):
     if "dummy" in g:
         return list(g["dummy"])
@@ -72,7 +90,7 @@ def geom(case, comp, pos):
     geometry is from the documented singular configurations (>= 0.25 means comfortably regular)"""
     k = comp["kind"]
     if k == "distance":
-        d = vnorm(vsub(com(case, pos, comp["groups"][1]), com(case, pos, comp["groups"][0])))
+        d = vnorm(pd(case, com(case, pos, comp["groups"][0]), com(case, pos, comp["groups"][1])))
         return d, (2.0 / d if d else 0.0), d
     if k in ("distanceZ", "distanceXY"):
         gm, gr, g2 = comp["groups"]
@@ -81,19 +99,19 @@ def geom(case, comp, pos):
             ax = unit_axis(comp["axis"])
             an = 1.0
         else:
-            v12 = vsub(com(case, pos, g2), cr)
+            v12 = pd(case, cr, com(case, pos, g2))
             an = vnorm(v12)
             ax = vsc(1.0 / an, v12) if an > 0 else [1.0, 0.0, 0.0]
         if k == "distanceZ":
-            dv = vsub(cm, cr) if g2 is None else vsub(cm, vsc(0.5, vadd(cr, com(case, pos, g2))))
+            dv = pd(case, cr, cm) if g2 is None else pd(case, vadd(cr, vsc(0.5, pd(case, cr, com(case, pos, g2)))), cm)
             return vdot(ax, dv), 0.0, an
-        dv = vsub(cm, cr)
+        dv = pd(case, cr, cm)
         dvo = vsub(dv, vsc(vdot(dv, ax), ax))
         x = vnorm(dvo)
         return x, (1.0 / x if x else 0.0), min(x, an)
     if k == "angle":
         c1, c2, c3 = [com(case, pos, g) for g in comp["groups"]]
-        r21, r23 = vsub(c1, c2), vsub(c3, c2)
+        r21, r23 = pd(case, c2, c1), pd(case, c2, c3)
         l1, l3 = vnorm(r21), vnorm(r23)
         if l1 == 0 or l3 == 0:
             return 0.0, 0.0, 0.0
@@ -104,7 +122,7 @@ def geom(case, comp, pos):
         return 180.0 / math.pi * th, jd, min(l1, l3, 2.0 * (1.0 - abs(c)))
     if k == "dihedral":
         c1, c2, c3, c4 = [com(case, pos, g) for g in comp["groups"]]
-        r12, r23, r34 = vsub(c2, c1), vsub(c3, c2), vsub(c4, c3)
+        r12, r23, r34 = pd(case, c1, c2), pd(case, c2, c3), pd(case, c3, c4)
         A, B = vcross(r12, r23), vcross(r23, r34)
         nG = vnorm(r23)
         val = 180.0 / math.pi * math.atan2(vdot(A, r34) * nG, vdot(A, B))
@@ -149,7 +167,9 @@ def doc_fj(case, pos):
 
 
 def regular(case, pos):
-    return min(geom(case, c, pos)[2] for c in case["comps"])
+    AMBIG[0] = False
+    m = min(geom(case, c, pos)[2] for c in case["comps"])
+    return 0.0 if AMBIG[0] else m
 
 
 def comp_atoms(comp):
@@ -246,7 +266,7 @@ def scenario(case, k):
     for i, m in enumerate(case["masses"]):
         L.append("mass %d %s" % (i + 1, hx(m)))
     L += ["temperature %r" % case["T"], "samestep %d" % case["same"], "includecv %d" % case["inc"], "totalforces 1",
-          "nocell", "new"]
+          ("cell %r %r %r" % tuple(case["cell"])) if case.get("cell") else "nocell", "new"]
     late = case.get("late", 0)
     if late:
         # the variable is defined while the simulation runs: `late` steps with another variable only
@@ -388,6 +408,7 @@ def comp_txt(comp):
 
 def model_line(case, isteps):
     p = ["RUN", str(case["n"])] + [hx(m) for m in case["masses"]]
+    p.append(("C " + vl([case["cell"]])) if case.get("cell") else "N")
     p += [hx(BOLTZ * case["T"]), "1" if case["hide"] else "0", "1" if case["sub"] else "0", "1" if case["same"] else "0",
           "1" if case["inc"] else "0", str(len(case["comps"]))]
     for c in case["comps"]:
@@ -530,6 +551,8 @@ def gen_case(r, idx, typ=None, kinds=None):
         comps[0]["coeff"] = r.choice([-1.0, 2.0, -0.5])
     case["comps"] = comps
     case["foreign"] = [nvar + 1, nvar + 2] if nforeign >= 2 else []
+    if r.random() < 0.25:
+        case["cell"] = [r.choice([4.0, 8.0, 16.0]) for _ in range(3)]
     case["T"] = r.choice([0.0, 300.0, 300.0, 512.0])
     case["hide"] = r.random() < 0.35
     case["sub"] = r.random() < 0.35
